@@ -20,11 +20,12 @@ import os
 import re
 import shutil
 import subprocess
+import time
 
 import vlib
 from vlib import Spec
 from C08 import (BOOL, CH, EN, FIX, INT, NULL, REF, RNG, SEQ, SET, STR, UTF8, C, Gen, M, T, line_of, render_module,
-                 templates, text_of_line, nonidem_module)
+                 templates, nonidem_module)
 
 # --------------------------------------------------------------------------------------------- Rust lexical facts
 # The Rust Reference, "Keywords" (2021 edition)
@@ -90,7 +91,15 @@ def parse_3402(out):
         ty, p = read_str(o, p)
         val, p = read_str(o, p)
         consts.append((scope, name, ty, val))
-    return names, consts
+    accesses = []
+    if p < len(o):
+        a = o[p]
+        p += 1
+        for _ in range(a):
+            scope, p = read_str(o, p)
+            ident, p = read_str(o, p)
+            accesses.append((scope, ident))
+    return names, consts, accesses
 
 
 def parse_3403(out):
@@ -104,6 +113,35 @@ def parse_3403(out):
         t, p = read_str(o, p)
         files.append((f, t))
     return files
+
+
+# --------------------------------------------------------------------------------------------- generator options
+# ops 3402 / 3403 take the options of RustCodeGenerator as a leading negative argument (harness/a1h/src/codegen.rs):
+# bit 0 set_fields_pub(false), bit 1 set_fields_have_getter_and_setter(true); no argument = RustCodeGenerator::default().
+# (global derives: without_additional_global_derives() is a no-op on the default generator and an added derive is the
+# user's own claim about the types -- not part of the family.)
+OPTIONS = [0, 1, 2, 3]
+OPTION_TEXT = {0: "default", 1: "private fields", 2: "getter and setter", 3: "private fields + getter and setter"}
+
+
+def line_with_options(text, op, options):
+    l = line_of(text, op)
+    return l if not options else "%d -%d %s" % (op, options, l.split(" ", 1)[1])
+
+
+def split_line(line):
+    """-> (op, options, module text)"""
+    toks = line.split()
+    options = 0
+    rest = toks[1:]
+    if rest and rest[0].startswith("-"):
+        options = -int(rest[0])
+        rest = rest[1:]
+    return toks[0], options, "".join(chr(int(x)) for x in rest)
+
+
+def text_of_line(line):
+    return split_line(line)[2]
 
 
 # --------------------------------------------------------------------------------------------- module texts of the pool
@@ -230,6 +268,12 @@ def special_modules():
     S.append(("nonidem_constants", mod_text("N4", "  a-b INTEGER ::= 5\n  x-y-z INTEGER ::= 3\n  is-a-b BOOLEAN ::= TRUE\n  T-A ::= INTEGER { a-b(1), plan-b-c(2) } (0..a-b)\n"
                                                   "  Rec-A-B ::= SEQUENCE { a-b INTEGER { x-y-z(0), item-a-b(5) } (0..a-b) DEFAULT x-y-z, mode-s-t BOOLEAN DEFAULT is-a-b, ..., a-b1 INTEGER { a-b(3) } (0..9) }\n"
                                                   "  X-Y-Z ::= BIT STRING { a-b(0), x-y-z(1) } (SIZE(8))")))
+    # accessor names (set_fields_have_getter_and_setter): keyword components get `fn type_`, `type_mut`, `set_type`
+    S.append(("accessors_on_keywords", mod_text("A1", "  Ta ::= SEQUENCE { type INTEGER (0..9), match BOOLEAN OPTIONAL, self UTF8String DEFAULT \"x\", ..., fn INTEGER { a(1) } (0..9), r-type Tb OPTIONAL }\n"
+                                                      "  Tb ::= SET { loop BOOLEAN, mod SEQUENCE OF INTEGER (0..9), yield ENUMERATED { a, b } DEFAULT a }")))
+    # ... and accessor names that coincide with each other or with the min/max functions: only with getters and setters
+    S.append(("accessor_name_clash", mod_text("A2", "  Ta ::= SEQUENCE { x INTEGER (0..9), set-x BOOLEAN }\n  Tb ::= SEQUENCE { y BOOLEAN, y-mut BOOLEAN }\n"
+                                                    "  Tc ::= SEQUENCE { z INTEGER (0..9), z-min BOOLEAN }")))
     S.append(("value_default_on_choice_alt", mod_text("V15", "  Ta ::= SEQUENCE { fa Tb DEFAULT x : 5 }\n  Tb ::= CHOICE { x INTEGER }")))
     return S
 
@@ -574,10 +618,11 @@ class C09(Spec):
     def gen(self, rng, tier):
         L = []
         self.labels = {}
-        for label, text in pool_cases(True) + abstract_zoo() + keyword_modules():
-            l = line_of(text, 3402)
-            self.labels[l] = label
-            L.append(l)
+        for options in OPTIONS:
+            for label, text in pool_cases(True) + abstract_zoo() + keyword_modules():
+                l = line_with_options(text, 3402, options)
+                self.labels[l] = label if not options else "%s [%s]" % (label, OPTION_TEXT[options])
+                L.append(l)
         # the mangling functions (tie of coq/Front/Codegen.v): every pool identifier through every function
         names = set(LOWER_KW + KEYWORDS + VARIANTS + [cap(v) for v in VARIANTS] + SHADOWING_TYPES + [n for p in COLLIDING for n in p])
         names |= {"", "-", "_", "a", "A", "aB", "AB", "ABc", "aBC", "HTTPServer", "my-HTTP-server", "x1y2", "X-1", "a--b", "-a", "a-", "A_B", "a_b_", "__",
@@ -610,6 +655,8 @@ class C09(Spec):
         if op != "3402":
             return None
         text = " ".join(text_of_line(line).replace("\0", " || ").split())
+        if split_line(line)[1]:
+            text = "[generator options: %s] %s" % (OPTION_TEXT.get(split_line(line)[1], split_line(line)[1]), text)
         o = ints_of(out)
         if out.startswith("3 "):
             cls = "untagged_choice_cycle_stack_overflow" if out == "3 32" and choice_cycle(text) else "front_end_crash"
@@ -633,29 +680,34 @@ class C09(Spec):
         return o[:1] == ["0"] and len(o) > 1 and int(o[1]) >= 3
 
     # ---------------------------------------------------------------- oracle (b): rustc
-    def extra_checks(self, ctx):
-        exe = ctx["exes"].get(("default", "dev"))
-        if exe is None:
-            return
-        zoo = fixed_zoo()
-        if ctx["tier"] != "quick":
-            zoo += seeded_zoo(ctx["seed"], 1000)
+    # modules of the zoo that are also compiled under every NON-default option combination of the generator
+    OPTION_SUBSET_PREFIXES = ("kw3:", "kw:ext-component:", "kw:set-component:", "kw:component:self-x", "kw:inline:", "special:nonidem",
+                              "special:named_number_on_", "special:accessors_on_keywords", "special:accessor_name_clash", "special:value_enumerated_default",
+                              "special:value_bool", "special:value_int", "special:value_null")
+    OPTION_SUBSET_TEMPLATES = ("template_DefaultsExt", "template_DefaultsSet", "template_IntsNamed", "template_IntsNamedDefault",
+                               "template_Extseq", "template_Extset", "template_ExtFirst", "template_Nested", "template_NestedChoice",
+                               "template_Refs", "template_NonIdem", "template_ConfusableSeq", "template_ConfusableSet", "template_Prims")
+
+    def rustc_stage(self, ctx, exe, zoo, options, ks):
+        """generate (op 3403) and compile the zoo modules with the indices `ks` under `options`; report rustc's rejections.
+        -> (statistics, {k: raw diagnostics})"""
         labels = [z[0] for z in zoo]
-        lines = [line_of(z[1], 3403) for z in zoo]
-        # the cache holds rustc's raw diagnostics per zoo module; it depends on the /repo sources, the zoo text and the crate header only
-        key = hashlib.sha256((repo_hash() + "\n" + CRATE_HEADER + "\n".join(lines)).encode()).hexdigest()[:24]
+        lines = {k: line_with_options(zoo[k][1], 3403, options) for k in ks}
+        # the cache holds rustc's raw diagnostics per module; it depends on the /repo sources, the module texts, the crate
+        # header and the generator options
+        key = hashlib.sha256((repo_hash() + "\n" + CRATE_HEADER + "\n".join(lines[k] for k in ks)).encode()).hexdigest()[:24]
         cache = os.path.join(vlib.CACHE, "c09_e2e_%s.json" % key)
-        outs = vlib.run_lines([exe], lines, timeout=300)
+        outs = dict(zip(ks, vlib.run_lines([exe], [lines[k] for k in ks], timeout=300)))
         accepted, rejected, panicked = {}, 0, 0
-        for k, (label, line, out) in enumerate(zip(labels, lines, outs)):
-            o = ints_of(out)
+        for k in ks:
+            o = ints_of(outs[k])
             if o[:1] == [1] and o[1] in (1, 2):
                 rejected += 1
                 continue
             if o[:1] != [0]:
                 panicked += 1
-                continue          # reported by the logic stream (same module text under op 3402) or below
-            accepted[k] = parse_3403(out)
+                continue          # reported by the logic stream (same module text under op 3402)
+            accepted[k] = parse_3403(outs[k])
         if os.path.exists(cache):
             raw = {int(k): [tuple(e) for e in v] for k, v in json.load(open(cache)).items()}
             cached = True
@@ -666,12 +718,13 @@ class C09(Spec):
             cached = False
         res = {k: [(classify_rustc(c, t, sl), t, sl) for c, t, sl in v] for k, v in raw.items()}
         # logic verdict on the same modules, for the cross comparison
-        louts = vlib.run_lines([exe], [line_of(z[1], 3402) for z in zoo], timeout=300)
+        louts = dict(zip(ks, vlib.run_lines([exe], [line_with_options(zoo[k][1], 3402, options) for k in ks], timeout=300)))
         n_bad = 0
         classes = {}
+        opt_text = "" if not options else "[generator options: %s] " % OPTION_TEXT[options]
         for k in sorted(accepted):
             errs = res.get(k, [])
-            text = " ".join(zoo[k][1].replace("\0", " || ").split())
+            text = opt_text + " ".join(zoo[k][1].replace("\0", " || ").split())
             parsed = parse_3402(louts[k])
             logic = set(c for c, _ in logic_oracle(*parsed)) if parsed else set()
             if not errs:
@@ -684,9 +737,38 @@ class C09(Spec):
                 classes[cls] = classes.get(cls, 0) + 1
                 ctx["oracle_fail"].append({"case": lines[k], "build": ["default", "dev"], "impl": ("rustc: " + msg)[:400], "class": cls,
                                            "what": "[%s] rustc rejects the generated code: %s | %s :: %s" % (labels[k], msg[:200], src[:120], text[:600])})
-        ctx["coverage_extra"] = {"rustc_stage": {"modules": len(zoo), "accepted_by_front_end": len(accepted), "rejected_by_front_end": rejected,
-                                                 "front_end_or_generator_panic": panicked, "rejected_by_rustc": n_bad, "classes": classes,
-                                                 "from_cache": cached, "cache_key": key}}
+        return {"modules": len(ks), "accepted_by_front_end": len(accepted), "rejected_by_front_end": rejected,
+                "front_end_or_generator_panic": panicked, "rejected_by_rustc": n_bad, "classes": classes,
+                "from_cache": cached, "cache_key": key}, raw
+
+    def extra_checks(self, ctx):
+        exe = ctx["exes"].get(("default", "dev"))
+        if exe is None:
+            return
+        zoo = fixed_zoo()
+        if ctx["tier"] != "quick":
+            zoo += seeded_zoo(ctx["seed"], 1000)
+        labels = [z[0] for z in zoo]
+        t0 = time.time()
+        stats, raw = self.rustc_stage(ctx, exe, zoo, 0, list(range(len(zoo))))
+        ctx["coverage_extra"] = {"rustc_stage": stats}
+        # every non-default configuration of the generator: the subset, and of it only what compiles under the default options
+        # (what rustc rejects there is a known class already and would only repeat itself)
+        subset = [k for k, lab in enumerate(labels)
+                  if (lab.startswith(self.OPTION_SUBSET_PREFIXES) or lab in self.OPTION_SUBSET_TEMPLATES) and raw.get(k) == []]
+        if ctx["tier"] != "quick":
+            subset = [k for k in range(len(zoo)) if raw.get(k) == []]
+        pairs = stats["accepted_by_front_end"]
+        per_option = {}
+        for options in OPTIONS[1:]:
+            st, _raw = self.rustc_stage(ctx, exe, zoo, options, subset)
+            per_option[OPTION_TEXT[options]] = st
+            pairs += st["accepted_by_front_end"]
+        ctx["coverage_extra"]["rustc_stage_generator_options"] = per_option
+        ctx["coverage_extra"]["module_option_pairs_compiled"] = pairs
+        ctx["coverage_extra"]["rustc_stage_wall_s"] = round(time.time() - t0, 1)
+        vlib.log("C09 rustc stage: %d (module, options) pairs, %d modules under each of %d non-default option sets, %.1fs" %
+                 (pairs, len(subset), len(OPTIONS) - 1, time.time() - t0))
         nonidem = [lab for lab in labels if lab.startswith("special:nonidem")]
         ctx["coverage_extra"]["non_idempotent_names"] = {"zoo_modules": len(nonidem), "labels": nonidem}
 
@@ -723,7 +805,7 @@ def primary_causes(errs, files):
     return primary or found
 
 
-def logic_oracle(names, consts):
+def logic_oracle(names, consts, accesses=()):
     fails = []
     seen = {}
     for ns, scope, name in names:
@@ -777,6 +859,14 @@ def logic_oracle(names, consts):
                 fails.append(("string_literal_not_escaped", "const %s: %s = %s in `%s`" % (name, ty, val, scope)))
         elif ty.startswith("&'static [") and not val.startswith("&["):
             fails.append(("const_type_mismatch", "const %s: %s = %s in `%s`" % (name, ty, val, scope)))
+    # every `self.<ident>` in an accessor / function body names a declared field of that struct (its escaped spelling)
+    fields = {}
+    for ns, scope, name in names:
+        if ns == 3:
+            fields.setdefault(scope, set()).add(name[2:] if name.startswith("r#") else name)
+    for scope, ident in accesses:
+        if scope in fields and ident not in fields[scope]:
+            fails.append(("accessor_names_undeclared_field", "`self.%s` in an impl of `%s`, whose fields are %s" % (ident, scope, sorted(fields[scope]))))
     out = []
     seen = set()
     for c, t in fails:
